@@ -13,7 +13,9 @@ RULE = ("(A) array level: for every length n up to the bound and random bit patt
         "decomposition are compared with the Coq model (Packed.slice_view / extract_fml, extracted), and values, len, "
         "sum, slice/index assignment (bool, ndarray, aligned packed operand), |= &= ^= with bool and packed operands, "
         "invert, copy, resize and index-array get/set are compared with the same operation on a NumPy boolean array "
-        "(the parent's bits outside the view must not change); the 256-entry population-count table is compared with "
+        "(the parent's bits outside the view must not change); the RAW BYTES of the view's buffer after every bulk and "
+        "index-array operation, and sum() of every view, are compared with the extracted byte-level model "
+        "(Packed.bulk_op / set_bits / clear_bits / test_bit_at / sum_view); the 256-entry population-count table is compared with "
         "the model entry by entry; (B) map level: a bit-packed map and an ordinary boolean twin are driven by the same "
         "seeded histories (updates replace/or/and with scalars, arrays, None, repeated pixels, ranges with arbitrary "
         "alignment, boolean operators with packed/unpacked operands, invert, copy, write/read, sub-maps) and compared "
